@@ -1,7 +1,11 @@
 """C06 — constant propagation is sound."""
+import os
+import re
 import common
 import degtable
+import proggen
 import propeng
+import sexp
 
 
 def gen(ctx):
@@ -11,9 +15,121 @@ def gen(ctx):
 def run(ctx, proofs):
     r = propeng.run(ctx, proofs, [("-", "-")], check_vals=True, check_degs=False,
                     n_quick=1000, n_thorough=20000, props=("C06", "C20"))
+    # the hypotheses on the prime of every C06 theorem (prime p, 2 < p, Z.log2 p < 2^64), evaluated for the three primes
+    import random as _random
+    def _probably_prime(n, rounds=40):
+        if n < 4:
+            return n in (2, 3)
+        if n % 2 == 0:
+            return False
+        d, s_ = n - 1, 0
+        while d % 2 == 0:
+            d //= 2
+            s_ += 1
+        rr = _random.Random(n % 1000003)
+        for _ in range(rounds):
+            a = rr.randrange(2, n - 1)
+            x = pow(a, d, n)
+            if x in (1, n - 1):
+                continue
+            for _ in range(s_ - 1):
+                x = x * x % n
+                if x == n - 1:
+                    break
+            else:
+                return False
+        return True
+    prime_hyp = {c: {"2 < p": q > 2, "Z.log2 p < 2^64": q.bit_length() - 1 < 2 ** 64, "prime p (Miller-Rabin, 40 rounds: not a proof)": _probably_prime(q)}
+                 for c, q in proggen.PRIMES.items()}
+    if not all(all(v.values()) for v in prime_hyp.values()):
+        ctx.violation("a hypothesis on the prime of the C06 theorems is not met: %s" % prime_hyp, {"broken": "hypotheses prime p / 2 < p / Z.log2 p < 2^64", "evaluated": prime_hyp}, no_input=True)
+    e2e_cov, e2e_failing = e2e_curves(ctx)
+    r["failing"] += e2e_failing
     propeng.verdict(ctx, proofs, r, kinds=("value", "finding"), known_classes=(),
-                    extra_cov={"open_statements": []})
+                    extra_cov={"open_statements": [
+                        "not covered here: how the analysis RUNNER obtains the graph of a called function (the `ir` harness calls into_cfg with the curve itself, so a runner that "
+                        "lifts cached functions with Curve::default() is invisible to this check; the end-to-end engines run BN254 only); CS0010 as a finding (C11 has the threshold); "
+                        "prefix operators at operator level have no theorem of their own (they are covered inside C06_validated_graph_claims_true)",
+                        "the end-to-end stage compares the CLI's constant-condition reports under each --curve on closed functions only (the runner's function cache); "
+                        "templates, includes and the other findings are the business of the end-to-end engines",
+                        "the check uses the fixpoint budget only: a change of the ORDER in which facts are found is seen by C20 (per-budget mirror equality), not here"],
+                               "end_to_end_constant_conditions_per_curve": e2e_cov, "hypotheses_on_the_prime": prime_hyp})
+    if e2e_cov["reports_compared"] < 6 or not e2e_cov["always_true"] or not e2e_cov["always_false"]:
+        ctx.violation("degenerate end-to-end stage: %d constant-condition reports compared (always true %d, always false %d)"
+                      % (e2e_cov["reports_compared"], e2e_cov["always_true"], e2e_cov["always_false"]), {"broken": "end-to-end curve stage of C06", "coverage": e2e_cov}, no_input=True)
+
+
+def e2e_curves(ctx):
+    """End-to-end stage (third audit, B C06 (i)): the constant-condition reports of the real CLI, run with `--curve X` for
+    each of the three curves, on files of closed functions (boundary constants of THAT curve, every operator), against the
+    reports the `ir` harness obtains for each function lifted with that curve (which the main stage compares with the
+    mirror of the pass on validated claims). The runner lifts functions through its cache: a runner that lifts them with
+    the default curve answers `always false` for `var x = <goldilocks prime>; if (x == 0)` under --curve goldilocks."""
+    import e2e
+    H = common.build_harness("ir")
+    cli = common.build_cli() or common.CLI_BIN
+    rng = ctx.rng
+    out = {"curves": {}, "functions": 0, "reports_compared": 0, "always_true": 0, "always_false": 0}
+    failing = []
+    d = e2e.scratch_dir("C06-curves") if hasattr(e2e, "scratch_dir") else "/tmp"
+    for curve in propeng.CURVES:
+        p = proggen.PRIMES[curve]
+        funs = ["function f() { var x = %d; if (x == 0) { return 1; } return 2; }" % p,
+                "function f() { var x = %d; var y = x + 1; if (y == 1) { return 1; } if (x != 0) { return 3; } return 2; }" % p,
+                "function f() { var x = %d; if (x == 0) { return 1; } return 2; }" % proggen.PRIMES["GOLDILOCKS" if curve != "GOLDILOCKS" else "BN254"]]
+        tries = 0
+        while len(funs) < (14 if ctx.tier == "quick" else 60) and tries < 2000:
+            tries += 1
+            q = proggen.targeted(rng, curve)
+            if q.startswith("function f() {") and "\n" not in q:
+                funs.append(q)
+        lifted = propeng.lift_all(H, [(curve, q, "e2e") for q in funs], [("-", "-")])
+        keep, want = [], {}
+        for i, q in enumerate(funs):
+            o = lifted[(i, "-", "-")]
+            if not o.startswith("(ok "):
+                continue
+            x = sexp.parse(o)
+            line = len(keep) + 2
+            keep.append(q.replace("function f()", "function f%d()" % len(keep), 1))
+            want[line] = sorted(sexp.unhex(y[2]) for y in x[5][1:])
+        path = os.path.join(d, "curve_%s.circom" % curve.lower())
+        with open(path, "w") as fh:
+            fh.write("pragma circom 2.0.0;\n" + "\n".join(keep) + "\ntemplate T() { signal input a; signal output b; b <== a + %s; }\n"
+                     % " + ".join("f%d()" % j for j in range(len(keep))))
+        rc, so, se = e2e.run_cli(cli, [path], e2e.cli_args(level="info", curve=curve.lower()), timeout=300)
+        got = {}
+        for blk in so.split("warning: Constant branching statement condition found.")[1:]:
+            m = re.search(r":(\d+):(\d+)\n", blk)
+            t = re.search(r"This condition is always (true|false)\.", blk)
+            if m and t:
+                got.setdefault(int(m.group(1)), []).append(t.group(0))
+        out["functions"] += len(keep)
+        out["curves"][curve] = {"functions": len(keep), "cli_exit": rc, "reports": sum(len(v) for v in got.values())}
+        for line in sorted(set(want) | set(got)):
+            w, g = want.get(line, []), sorted(got.get(line, []))
+            if line - 2 >= len(keep):
+                continue          # the template line
+            out["reports_compared"] += len(w)
+            out["always_true"] += sum(1 for y in w if y.endswith("true."))
+            out["always_false"] += sum(1 for y in w if y.endswith("false."))
+            if w != g:
+                failing.append({"input": "pragma circom 2.0.0;\n" + keep[line - 2] + "\ntemplate T() { signal input a; signal output b; b <== a + f%d(); }\n" % (line - 2),
+                                "curve": curve, "cli_args": ["--curve", curve.lower(), "--level", "info"], "kind": "finding", "classes": [],
+                                "impl": "the CLI with --curve %s reports %s for this function" % (curve.lower(), g or "no constant condition"),
+                                "spec": "lifted with that curve its validated value claims give %s" % (w or "no constant condition")})
+    return out, failing
 
 
 def replay(ctx, rep):
+    if rep.get("cli_args"):
+        import e2e
+        cli = common.build_cli() or common.CLI_BIN
+        d = e2e.scratch_dir("C06-replay")
+        path = os.path.join(d, "replay.circom")
+        open(path, "w").write(rep["input"])
+        rc, so, se = e2e.run_cli(cli, [path], rep["cli_args"], timeout=300)
+        print(so[:3000])
+        print("expected:", rep.get("spec"))
+        return 1
     return propeng.replay(ctx, rep)
